@@ -37,7 +37,12 @@ Section File.
     check_file text = match parse text with Some (JDict user) => full_check user | _ => None end.
   Proof. reflexivity. Qed.
 
+  (* the "input" object of the configuration file gives "left" and "right" at most once *)
+  Definition text_input_keys_once (text : string) : bool :=
+    match parse text with Some (JDict user) => input_keys_once user | _ => true end.
+
   Theorem saved_file_replays m text out :
+    text_input_keys_once text = true ->
     main_file m text = Some out ->
     exists user cfg saved,
       parse text = Some (JDict user)
@@ -49,11 +54,12 @@ Section File.
           /\ check_file out = Some (run_rewrites cfg)
           /\ main_file m out = Some out).
   Proof.
+    intro KO. unfold text_input_keys_once in KO.
     rewrite main_file_eq. destruct (parse text) as [[| | | | | | | |user]|] eqn:Pt; try discriminate.
     destruct (main_saved m user) as [saved|] eqn:Ms; [|discriminate]. intro H. assert (Hout : out = print (JDict saved)) by (inversion H; reflexivity). clear H.
     assert (G : replay_guard D orc grid_ok images_ok bands_of classes interp user = true).
     { unfold SavedCfg.main_saved in Ms. destruct (full_check user) as [cfg|] eqn:E; [|discriminate].
-      exact (replay_guard_holds D orc grid_ok images_ok bands_of classes interp W S DW user cfg E). }
+      exact (replay_guard_holds D orc grid_ok images_ok bands_of classes interp W S DW user cfg KO E). }
     destruct (main_saved_replays_rw D orc grid_ok images_ok bands_of classes interp W CW user m saved Ms G)
       as [cfg [Fc [Es [Fs Ms2]]]].
     exists user, cfg, saved. split; [reflexivity|]. split; [exact Fc|]. split; [exact Es|]. split; [exact Hout|].
